@@ -478,12 +478,86 @@ Definition read_raw_string_fx (allow : bool) (doc : str) : doc_result :=
 Definition read_file_fx (allow : bool) (doc : str) : doc_result :=
   run_lines_g (process_line_fx allow) (file_lines doc) [] 0.
 
+(** * [decide_literal_type] after the repair literal-type-from-suffix
+    ([Gen.Consts.nt_fixed_dlt]): the kind of the literal is read after its last quote *)
+Fixpoint first_dlt_prefix (tbl : list (str * Z * str)) (a : str) : option (str * Z * str) :=
+  match tbl with
+  | [] => None
+  | (p, k, ns) :: tbl' => if prefixb p a then Some (p, k, ns) else first_dlt_prefix tbl' a
+  end.
+
+Definition decide_literal_type_fx (a : str) : res str :=
+  (* q = a_literal.rfind(quote); suffix = a_literal[q + 1:].strip() if q >= 0 else "" *)
+  let q := rfind (Str """") a in
+  let suffix := if q <? 0 then [] else strip (slice_from a (q + 1)) in
+  if prefixb ntf_lang_char suffix then Ok c_LANG_STRING_TYPE
+  else if negb (prefixb ntf_type_marker suffix) then
+    if arroba_after_last_quotes a then Ok c_LANG_STRING_TYPE else Ok c_STRING_TYPE
+  else
+    let a_type := slice_from suffix 2 in
+    match first_dlt_prefix ntf_dlt_prefix_table a_type with
+    | Some (p, k, ns) => Ok (ns ++ slice_from a_type k)
+    | None =>
+      if prefixb ntf_dlt_iri_open a_type && suffixb ntf_dlt_iri_close a_type
+      then Ok (slice_cp a_type 1 (-1))
+      else Raise ERuntime
+    end.
+
+Definition parse_literal_fx (a : str) : res term :=
+  let content := slice_cp a 1 (find_from (Str """") a 1) in
+  bind (decide_literal_type_fx a) (fun dt => Ok (TLit content dt)).
+
+Definition tune_token_fx (allow_untyped_numbers : bool) (tok : str) : res term :=
+  if prefixb (Str "<") tok then bind (remove_corners tok) (fun u => Ok (TIri u))
+  else if prefixb (Str """") tok then parse_literal_fx tok
+  else if prefixb (Str "_:") tok then Ok (TBn tok)
+  else if str_eqb (strip tok) (Str "[]") then Ok (TBn tok)
+  else
+    match (if allow_untyped_numbers then simple_number (strip tok) else None) with
+    | Some true => Ok (TLit (strip tok) c_INTEGER_TYPE)
+    | Some false => Ok (TLit (strip tok) c_FLOAT_TYPE)
+    | None => bind (decide_literal_type_fx tok) (fun dt => Ok (TLit tok dt))
+    end.
+
+Definition tokens_result_fx (allow : bool) (r : res (list str)) : line_result :=
+  match r with
+  | Hang => LHang
+  | Raise e => LRaise e
+  | Ok [a; b; c] =>
+    match tune_token_fx false a with
+    | Hang => LHang | Raise e => LRaise e
+    | Ok s =>
+      match tune_prop b with
+      | Hang => LHang | Raise e => LRaise e
+      | Ok p =>
+        match tune_token_fx allow c with
+        | Hang => LHang | Raise e => LRaise e
+        | Ok o => LYield s p o
+        end
+      end
+    end
+  | Ok _ => LError
+  end.
+
+(** tokeniser repairs + typing repair *)
+Definition process_line_fx2 (allow : bool) (raw_line : str) : line_result :=
+  tokens_result_fx allow (look_for_tokens_fx (strip raw_line)).
+
+Definition read_raw_string_fx2 (allow : bool) (doc : str) : doc_result :=
+  run_lines_g (process_line_fx2 allow) (raw_string_lines doc) [] 0.
+
+Definition read_file_fx2 (allow : bool) (doc : str) : doc_result :=
+  run_lines_g (process_line_fx2 allow) (file_lines doc) [] 0.
+
 (** ** the reader /repo has now *)
 Definition read_raw_string_cur (allow : bool) (doc : str) : doc_result :=
-  if nt_fixed_tok then read_raw_string_fx allow doc else read_raw_string allow doc.
+  if nt_fixed_tok then (if nt_fixed_dlt then read_raw_string_fx2 allow doc else read_raw_string_fx allow doc)
+  else read_raw_string allow doc.
 
 Definition read_file_cur (allow : bool) (doc : str) : doc_result :=
-  if nt_fixed_tok then read_file_fx allow doc else read_file allow doc.
+  if nt_fixed_tok then (if nt_fixed_dlt then read_file_fx2 allow doc else read_file_fx allow doc)
+  else read_file allow doc.
 
 Definition process_line_cur (allow : bool) (line : str) : line_result :=
-  if nt_fixed_tok then process_line_fx allow line else process_line allow line.
+  if nt_fixed_tok then (if nt_fixed_dlt then process_line_fx2 allow line else process_line_fx allow line)
+  else process_line allow line.
